@@ -153,3 +153,36 @@ for name, unit, q, t in (("sec", 1000, 3599, 200000), ("min", 60000, 1439, 20000
       bound={"quick": "k = 0..%d (every multiple of %d ms)" % (q, unit), "thorough": "k = 0..%d (every multiple of %d ms)" % (t, unit)},
       defines={"quick": ["-DRT_LO=0", "-DRT_HI=%d" % q, "-DRT_UNIT=%dLL" % unit], "thorough": ["-DRT_LO=0", "-DRT_HI=%d" % t, "-DRT_UNIT=%dLL" % unit]},
       unwind=12, cbmc_flags=IDIFF_UW, solver=["minisat", "kissat"], timeout={"quick": 600, "thorough": 3600})
+
+# ------------------------------------------------------------------ C15
+P("C15", level="proof",
+  level_text="Contracts on the real scale.c conversion functions with both data tables as in the tree, discharged by CBMC over every day of 1901..2099 symbolically: round trips, successor, month length == distance of first days, weekday == weekday of the Gregorian image, rejection outside the tables. The table scans run over constant data and are unwound completely.",
+  level_note="Trusted: CBMC semantics; spec_cal.h day numbering. Known findings (carved regions, replayed each run) are listed in known_findings.json.",
+  not_covered=["echs_instant_rescale's tz/scale bit handling beyond the conversions"])
+O("C15.greg", "C15", "h_C15.c", "h_C15_greg",
+  "g2mjd == MJD of the date, mjd2g inverts it, Gregorian month length and both weekday formulas equal the spec for every date 1901..2099",
+  ["g2mjd", "mjd2g", "__ndim_greg", "__wday_greg"], solver=["minisat", "kissat"], timeout={"quick": 600, "thorough": 1800})
+O("C15.greg.inv", "C15", "h_C15.c", "h_C15_greg_inv",
+  "mjd2g(j) is a real date and g2mjd inverts it for every day number of 1901..2099",
+  ["g2mjd", "mjd2g"], solver=["minisat", "kissat"], timeout={"quick": 600, "thorough": 1800})
+O("C15.hij", "C15", "h_C15.c", "h_C15_hij",
+  "arithmetic Hijri scales (types I-IV x astronomical/civil epoch), every day of 1901..2099: real date, round trip, successor, month length == distance of first days, weekday",
+  ["mjd2hij", "hij2mjd", "__ndim_hij", "__hij_inty_p", "__wday_hij"], defines=["-DHIJ_TYPES_LO=0", "-DHIJ_TYPES_HI=2"], solver=["minisat", "kissat"], timeout={"quick": 600, "thorough": 1800})
+O("C15.hij.IV", "C15", "h_C15.c", "h_C15_hij",
+  "arithmetic Hijri scales of type IV (HIJRI.IVA / HIJRI.IVC), negative shift: same contract as C15.hij",
+  ["mjd2hij", "hij2mjd", "__hij_yoff", "__ndim_hij", "__hij_inty_p", "__wday_hij"], defines=["-DHIJ_TYPES_LO=3", "-DHIJ_TYPES_HI=3"],
+  solver=["minisat", "kissat"], timeout={"quick": 600, "thorough": 1800})
+for tab, n in (("dat_ummulqura", 1752), ("dat_diyanet", 1526)):
+    O("C15.table.%s" % tab[4:], "C15", "h_C15.c", "h_C15_table",
+      "%s: every day of 1901..2099: covered days map to a real date, back to the same day, to the right weekday and successor; days outside the coverage are rejected (scan over the constant table unwound completely)" % tab,
+      ["mjd2ht", "ht2mjd", "__ndim_ht", "__wday_ht"], defines=["-DTABLE=" + tab] + (["-DTABLE_COVERS_1901"] if tab == "dat_diyanet" else []), unwind=n + 2,
+      solver=["minisat", "kissat"], timeout={"quick": 900, "thorough": 1800})
+O("C15.rescale.reject", "C15", "h_C15.c", "h_C15_rescale_reject",
+  "echs_instant_rescale(table scale -> Gregorian): dates outside the table are rejected, covered dates map to the Gregorian date of their day number",
+  ["echs_instant_rescale", "ht2mjd", "mjd2g"], solver=["minisat", "kissat"], native_srcs=["tzob.c", "tzraw.c", "hash.c", "instant.c"])
+O("C15.dispatch", "C15", "h_C15.c", "h_C15_dispatch",
+  "echs_scale_ndim / echs_scale_wday use, for each of the 11 scale names, that scale's own intercalation type, epoch or table",
+  ["echs_scale_ndim", "echs_scale_wday"], solver=["minisat", "kissat"], timeout={"quick": 600, "thorough": 1800})
+O("C15.rescale.roundtrip", "C15", "h_C15.c", "h_C15_rescale_roundtrip",
+  "echs_instant_rescale: Gregorian -> arithmetic Hijri scale -> Gregorian is the identity for every date 1938..2076, scale tag kept",
+  ["echs_instant_rescale"], solver=["minisat", "kissat"], timeout={"quick": 900, "thorough": 1800}, native_srcs=["tzob.c", "tzraw.c", "hash.c", "instant.c"])
